@@ -256,6 +256,7 @@ def invalid_item(draw):
     n = draw(st.integers(1, 12))
     d = draw(st.integers(1, 6))
     it = {"kernel": kernel, "dtype": dtype, "kind": kind, "n": n, "d": d,
+          "with_out": draw(st.booleans()),      # a perfectly valid out buffer is passed along with the invalid X / y
           "delta": draw(st.integers(1, 40)),
           "xlayout": draw(st.sampled_from(["C", "F", "rowstride"]))}
     if kind == "mixed_dtype":
@@ -328,6 +329,9 @@ def eval_invalid(it):
     elif k == "out_readonly":
         out = np.zeros(n, dtype=np.float64)
         out.flags.writeable = False
+    if out is None and it.get("with_out") and k in ("y_longer", "y_shorter", "mixed_dtype", "unsupported_dtype", "y_rank2",
+                                                  "X_rank3", "byteswapped"):
+        out = np.zeros(n, dtype=np.float64)
     try:
         r = fn(X, y, out) if out is not None else fn(X, y)
     except Exception as e:
